@@ -73,6 +73,10 @@ def case_strategy(draw, tier="quick"):
         vd = ([0] if rec else []) + draw(st.lists(st.sampled_from([2, 3]), min_size=0 if rec else 1, max_size=2))
         signed = xt in (M.NC_BYTE, M.NC_SHORT, M.NC_INT, M.NC_FLOAT, M.NC_DOUBLE, M.NC_INT64)
         vars_.append({"xt": xt, "dims": vd, "vclass": draw(st.sampled_from(["wild", "pos", "neg"] if signed else ["wild", "pos"]))})
+    twin = G.chance(draw, 30)
+    if twin:
+        # a second variable like variable 0: both can be written from ONE user buffer by two pending nonblocking puts
+        vars_.append({"xt": M.NC_DOUBLE, "dims": [1], "vclass": "wild"})
     sch = {"fmt": fmt, "dims": dims, "vars": vars_}
     numrecs = 0
     steps = []
@@ -82,6 +86,11 @@ def case_strategy(draw, tier="quick"):
         kind = "iwrite" if burst > 0 else draw(st.sampled_from(["write", "write", "write", "iwrite", "iwrite", "read", "read", "att", "redef", "reopen"]))
         if kind == "iwrite":
             burst = burst - 1 if burst > 0 else draw(st.integers(0, 3))      # several requests pending for the same wait
+        if twin and kind == "iwrite" and G.chance(draw, 50):
+            n = draw(st.integers(600, BIGN))
+            steps.append({"op": "iwrite_shared", "var": 0, "twin": len(vars_) - 1, "box": [[draw(st.integers(0, BIGN - n))], [n], [1]],
+                          "form": "vara", "mt": "double", "seed": draw(st.integers(0, 10 ** 5)), "derived": False})
+            continue
         if kind == "att":
             steps.append({"op": "att", "name": "a%d" % len(steps), "n": draw(st.integers(1, 6)), "seed": draw(st.integers(0, 99))})
             continue
@@ -124,6 +133,10 @@ def case_strategy(draw, tier="quick"):
             steps.append({"op": "read", "var": vi, "box": [list(box[0]), list(box[1]), list(box[2])], "form": form, "mt": draw(memsel(v)), "derived": G.chance(draw, 40)})
     A = draw(config(kmax))
     B = draw(config(kmax))
+    if any(x["op"] == "iwrite_shared" for x in steps):
+        # known finding F58 (two pending iputs sharing one user buffer + in-place byte swap) is excluded by construction:
+        # buffer sharing is generated only with in-place swap disabled; the finding itself is kept as a replay
+        A["hints"]["nc_in_place_swap"] = B["hints"]["nc_in_place_swap"] = "disable"
     return {"schema": sch, "steps": steps, "A": A, "B": B}
 
 
@@ -261,6 +274,29 @@ def build(case, cfg):
         vi = stp["var"]
         v = sch["vars"][vi]
         parts = split(stp["box"], k, seed + si)
+        if op == "iwrite_shared":
+            full = set(map(tuple, M.box_indices(*stp["box"]).tolist()))
+            if pend and any(a in (vi, stp["twin"]) and (full & b) for a, b in pbox):
+                _complete(p, fm, pend, k)
+                pbox[:] = []
+            pbox.append((vi, full))
+            pbox.append((stp["twin"], full))
+            for r in range(k):
+                rq = mkreq(stp, parts[r], vi, v)
+                idx = req_geometry(fm, rq, fm.numrecs)[0]
+                if len(idx) == 0:
+                    continue
+                vals = part_values(stp, idx, fm, vi, rq, v["vclass"])
+                q1, q2 = p.newreq(), p.newreq()
+                n1, slot, _, _ = p.put(fm, r, rq, fm.numrecs, api="iput", reqslot=q1, apply=False, values=vals)
+                # the same user buffer posted a second time, for the twin variable
+                n2 = p.s.op("data", ranks=[r], api="iput", form="vara", coll=0, mt="double", f="f0", v=stp["twin"], buf=slot,
+                            start=rq["start"], count=rq["count"], req=q2)
+                p.expect_rc(n2, [r], 0, "iput_vara (second request on the same buffer)")
+                pend.append((vi, idx, vals))
+                pend.append((stp["twin"], idx, vals))
+            out["shared_buffer_iputs"] = out.get("shared_buffer_iputs", 0) + 1
+            continue
         if op in ("write", "iwrite"):
             indep = bool(stp.get("indep")) and op == "write"
             # overlapping writes pending in one wait have no defined order: complete the earlier ones first
@@ -452,6 +488,10 @@ def run_case(ctx, case):
         except Exception as ex:
             probs.append({"kind": "decode", "msg": "decoding the output files failed: %r" % ex, "sig": {"kind": "decode"}})
     A, B = case["A"], case["B"]
+    if any(x["op"] == "iwrite_shared" for x in case["steps"]) and any(c_["hints"].get("nc_in_place_swap") != "disable" for c_ in (A, B)):
+        # only reachable through replays: the generator disables in-place swap whenever a buffer is shared (F58)
+        for pr in probs:
+            pr["sig"] = dict(pr.get("sig") or {}, cause="shared_buffer_in_place_swap")
     labels = set(["kA%d" % A["k"], "kB%d" % B["k"], "fmt%d" % case["schema"]["fmt"]])
     differ = A["k"] != B["k"] or any(A["hints"].get(h) != B["hints"].get(h) for h in ("nc_num_aggrs_per_node", "nc_ibuf_size", "nc_in_place_swap", "romio_no_indep_rw"))
     for c_ in (A, B):
@@ -470,6 +510,9 @@ def run_case(ctx, case):
         labels.add("k_differs")
     if A["safe"] != B["safe"]:
         labels.add("safe_mode_differs")
+    if any(x["op"] == "iwrite_shared" for x in case["steps"]):
+        labels.add("two_pending_iputs_share_one_buffer(in_place_swap_disabled)")
+        ctx.excluded_known += 1
     for stp in case["steps"]:
         labels.add("step_" + stp["op"] + ("_indep" if stp.get("indep") else ""))
         if stp["op"] in ("write", "iwrite", "read"):
